@@ -127,6 +127,15 @@ func handshakePair(version, suite uint16, certs testCerts, dynOff bool) (*pair, 
 	if err != nil {
 		return nil, err
 	}
+	return handshakeOn(a, b, version, suite, certs, dynOff)
+}
+
+// handshakeOver: like handshakePair on transports supplied by the caller (a = client side).
+func handshakeOver(a, b net.Conn, version, suite uint16, certs testCerts) (*pair, error) {
+	return handshakeOn(a, b, version, suite, certs, false)
+}
+
+func handshakeOn(a, b net.Conn, version, suite uint16, certs testCerts, dynOff bool) (*pair, error) {
 	p := &pair{a: a, b: b, crec: &recConn{Conn: a}, srec: &recConn{Conn: b}}
 	scfg := &stdtls.Config{Certificates: []stdtls.Certificate{certs.ecdsa, certs.rsa}, MinVersion: version, MaxVersion: version,
 		DynamicRecordSizingDisabled: dynOff}
